@@ -149,6 +149,8 @@ func GenPackage(t *rapid.T, o GenOpts, nfiles, perFile int) *PackageSpec {
 			f.Layout = 1 + uniform(t, "layoutbits", 15)
 		case 4:
 			f.Layout = 8
+		case 7:
+			f.Layout = 64 + uniform(t, "layoutbits64", 64) // "/*" inside a line comment above the constraint, plus any other layout feature
 		case 6:
 			f.Layout = 32 + uniform(t, "layoutbits32", 32) // a byte order mark, plus any other layout feature
 		case 5:
